@@ -6,6 +6,7 @@
 import SIM.Driver.Basic
 import SIM.Driver.Codec
 import SIM.Driver.Registry
+import SIM.Driver.Retain
 open SIM SIM.Driver
 
 def dispatch (stream : String) (toks : List String) : Verdict :=
@@ -15,6 +16,7 @@ def dispatch (stream : String) (toks : List String) : Verdict :=
   | "path" => runP path toks
   | "codec" => runP codec toks
   | "registry" => runP registry toks
+  | "retain" => runP retain toks
   | _ => .unmodelled ("unknown stream " ++ stream)
 
 partial def loop (h : IO.FS.Stream) (out : IO.FS.Stream) : IO Unit := do
